@@ -104,10 +104,37 @@ Definition eval_kernel (k : kernel) (tys args : list Z) : Z :=
 Definition well_typed (k : kernel) (tys : list Z) : bool :=
   match k with
   | KMulK | KAddK => (length tys =? 3)%nat && (ty tys 0 =? ty tys 1) && (ty tys 0 =? ty tys 2) && (0 <? ty tys 0)
-  | KMacK => (length tys =? 3)%nat && (ty tys 0 =? ty tys 1) && (0 <? ty tys 0) && (ty tys 0 <=? ty tys 2)
+  | KMacK => (length tys =? 3)%nat && (0 <? ty tys 0) && (0 <? ty tys 1) &&
+             (((ty tys 0 =? ty tys 2) && (ty tys 1 =? ty tys 2)) || ((ty tys 0 <? ty tys 2) && (ty tys 1 <? ty tys 2)))
   | KQMacK => (length tys =? 5)%nat && (0 <? ty tys 0) && (0 <? ty tys 1) &&
               (ty tys 0 <? ty tys 2) && (ty tys 1 <? ty tys 3) && (ty tys 2 =? ty tys 3) && (ty tys 2 =? ty tys 4)
   | KRescaleK => false
+  end.
+
+(* ---------------------------------------------------------------- typing (what the xDSL verifier accepts) *)
+Definition src_ty (argt res_tys : list Z) (s : src) : option Z :=
+  match s with SArg i => nth_error argt i | SRes i => nth_error res_tys i | SCst _ => None end.
+Definition op_typed (argt res_tys : list Z) (o : bop) : bool :=
+  match kind o, operands o with
+  | KAdd, [a; b] | KMul, [a; b] | KSub, [a; b] =>
+    optZ_eqb (src_ty argt res_tys a) (Some (rty o)) && optZ_eqb (src_ty argt res_tys b) (Some (rty o)) && (0 <? rty o)
+  | KExt, [a] => match src_ty argt res_tys a with Some w => (0 <? w) && (w <? rty o) | None => false end
+  | _, _ => false
+  end.
+Fixpoint ops_typed (argt res_tys : list Z) (l : list bop) : bool :=
+  match l with
+  | [] => true
+  | o :: r => op_typed argt res_tys o && ops_typed argt (res_tys ++ [rty o]) r
+  end.
+Definition res_types (l : list bop) : list Z := map rty l.
+(* a body over add/mul/sub/extsi is valid IR: operand types agree, extsi widens, the yielded value has
+   the type of the output block argument *)
+Definition body_typed (b : body) : bool :=
+  ops_typed (argtys b) [] (ops b) &&
+  match yielded b with
+  | [y] => optZ_eqb (src_ty (argtys b) (res_types (ops b)) y) (nth_error (argtys b) (length (argtys b) - 1))
+           && (0 <? length (argtys b))%nat
+  | _ => false
   end.
 
 (* ---------------------------------------------------------------- recognition *)
